@@ -718,9 +718,31 @@ def _view(fr, light=False):
     return out
 
 
+SECRET = 'verif-shared-secret'
+SESS_PAYLOAD = {'cart': ['base']}
+
+
+def signed_cookie_value(name, payload, secret):
+    """the value of a signed cookie as the framework's set_cookie(name, payload, secret=...) produces it
+    (written out here: '!' + base64(hmac-md5(msg)) + '?' + base64(pickle((name, payload))))"""
+    import base64
+    import hashlib
+    import hmac
+    import pickle
+    msg = base64.b64encode(pickle.dumps((name, payload), -1))
+    sig = base64.b64encode(hmac.new(secret.encode(), msg, digestmod=hashlib.md5).digest())
+    return (b'!' + sig + b'?' + msg).decode('latin1')
+
+
+def _cookie_pairs(fr):
+    if fr.get('w_req_cookies') is not None:
+        return [list(p) for p in fr['w_req_cookies']]
+    return [p.strip().split('=', 1) for p in fr['cookie'].split(';')] if fr['cookie'] else []
+
+
 def _want(fr):
     q = [p.split('=', 1) for p in fr['qs'].split('&')] if fr['qs'] else []
-    cq = [p.strip().split('=', 1) for p in fr['cookie'].split(';')] if fr['cookie'] else []
+    cq = _cookie_pairs(fr)
     wh = fr['w_hdrs']
     flat = _flat(wh)
     return dict(path=fr['path'], qs=fr['qs'], query=sorted(q), method=fr['method'], cookie_hdr=fr['cookie'],
@@ -872,7 +894,23 @@ def _teapot_loop(err):
     return ombott.HTTPError(418, 'again')
 
 
+def _foreign(heard_entry, tok):
+    """an environ change heard by a listener that carries another call's token (values written by the scripted
+    actions all start with the token of their call)"""
+    import re
+    m = re.search(r't[ACE](?:n\d+|cc)*', str(heard_entry[1]))
+    return bool(m) and m.group(0) != tok and not (heard_entry[0] == 'x.note' and m.group(0) == tok)
+
+
 def _interp(fr):
+    r = _interp_actions(fr)
+    return 'done:' + fr['tok'] if r is _FELL_THROUGH else r
+
+
+_FELL_THROUGH = object()
+
+
+def _interp_actions(fr):
     import ombott
     app = fr['apps'][fr['app']]
     for act in fr['script']:
@@ -942,6 +980,8 @@ def _interp(fr):
                     fr['qs'] = value
                 elif key == 'HTTP_COOKIE':
                     fr['cookie'] = value
+                    fr['w_req_cookies'] = None
+                    fr['signed'] = False
         elif kind == 'req_del':
             if not fr.get('readonly'):
                 app.request['x.tmp'] = fr['tok']
@@ -972,8 +1012,61 @@ def _interp(fr):
                 app.request.off('env_changed', cb)
             else:
                 un()
-            fr['log'].append(dict(kind='form', tok=fr['tok'], where='listen', got=dict(heard=heard),
-                                  want=dict(heard=[] if fr.get('readonly') else [['x.note', fr['tok']]])))
+            fr['log'].append(dict(kind='form', tok=fr['tok'], where='listen',
+                                  got=dict(own=[h for h in heard if not _foreign(h, fr['tok'])],
+                                           foreign=[h for h in heard if _foreign(h, fr['tok'])]),
+                                  want=dict(own=[] if fr.get('readonly') else [['x.note', fr['tok']]], foreign=[])))
+        elif kind == 'sess_mutate':
+            # read the signed cookie, change the decoded value IN PLACE, report it: the decoded object belongs to
+            # this request (every request decodes its own copy of the cookie)
+            import copy as _copy
+            sess = app.request.get_cookie('sess', secret=SECRET)
+            first = _copy.deepcopy(sess)
+            if isinstance(sess, dict):
+                sess['cart'].append(fr['tok'])
+                sess['owner'] = fr['tok']
+                app.response.headers['X-Cart'] = ','.join(sess['cart'])
+                fr['w_hdrs']['X-Cart'] = 'base,' + fr['tok']
+            fr['log'].append(dict(kind='form', tok=fr['tok'], where='signed cookie', got=dict(decoded=first),
+                                  want=dict(decoded=SESS_PAYLOAD if fr.get('signed') else None)))
+        elif kind == 'listen_around':
+            # ['listen_around', [actions]]: a listener on THIS application's request stays registered while the inner
+            # actions run (nested calls into other applications, environ changes there), and is removed afterwards
+            heard = []
+
+            def cb2(rq, key, v, _heard=heard):
+                _heard.append([key, v])
+            un = app.request.on('env_changed', cb2)
+            inner = dict(fr, script=act[1])
+            try:
+                _interp_actions(inner)
+            finally:
+                un()
+            for k in ('qs', 'cookie', 'w_req_cookies', 'w_ext', 'w_status', 'w_line'):
+                fr[k] = inner.get(k)
+            fr['log'].append(dict(kind='form', tok=fr['tok'], where='listen',
+                                  got=dict(foreign=[h for h in heard if _foreign(h, fr['tok'])]), want=dict(foreign=[])))
+        elif kind == 'resp_copy':
+            # a copy of app.response (own class by default, or another class) has the same status, headers and
+            # cookies and is a different object; a Response can also be built with the documented arguments
+            cp = app.response.copy() if act[1:] != ['http'] else app.response.copy(cls=ombott.HTTPResponse)
+            made = ombott.Response(fr['tok'], 201, {'X-R': fr['tok']})
+            got = dict(hdrs=_flat(dict(cp.headers.items())), status=cp.status_code,
+                       cookies=sorted([m.key, m.value] for m in cp._cookies.values()) if cp._cookies else [],
+                       same_object=cp is app.response, made=[made.body, made.status_code, _flat(dict(made.headers.items()))])
+            cp.headers['X-Only-Copy'] = fr['tok']
+            for v in cp.headers.dict.values():
+                if isinstance(v, list):
+                    v.append('copy-only')
+            fr['log'].append(dict(kind='form', tok=fr['tok'], where='response copy', got=got,
+                                  want=dict(hdrs=_flat(fr['w_hdrs']), status=fr['w_status'],
+                                            cookies=sorted([k, v] for k, v in fr['w_cookies'].items()), same_object=False,
+                                            made=[fr['tok'], 201, [['X-R', fr['tok']]]])))
+        elif kind == 'copy_off':
+            # the copy is an object of its own: taking the stock cache-invalidation listener off the COPY must leave
+            # this request's (and every other request's) invalidation in place
+            cp = app.request.copy()
+            cp.off('env_changed', type(cp)._on_env_changed)
         elif kind == 'bad_status':
             # a status the setter refuses (ends the script: 500 page)
             fr['w_final'], fr['w_end'] = 'error', 500
@@ -994,7 +1087,8 @@ def _interp(fr):
             sub = app.request.copy()
             inner = dict(app=act[1], tok=fr['tok'] + 'cc', script=act[2], qs=fr['qs'], method=fr['method'],
                          form=None, cookie=fr['cookie'], readonly=fr.get('readonly'),
-                         w_ext=fr.get('w_ext'))       # (an ext attribute is an environ entry: the copy has it too)
+                         w_ext=fr.get('w_ext'),       # (an ext attribute is an environ entry: the copy has it too)
+                         w_req_cookies=fr.get('w_req_cookies'), signed=fr.get('signed'))
             if len(act) > 3:
                 inner.update(act[3])          # e.g. {'hook_input': True}
             do_call(fr['apps'], inner, fr['log'], environ=sub.environ, path=fr['path'])
@@ -1032,7 +1126,7 @@ def _interp(fr):
             except Exception as e:  # noqa
                 got['error'] = type(e).__name__
             fq = [p.split('=', 1) for p in fr['form'].split('&')] if fr['form'] else []
-            cq = [p.strip().split('=', 1) for p in fr['cookie'].split(';')] if fr['cookie'] else []
+            cq = _cookie_pairs(fr)
             want = dict(forms=sorted(fq), cookies=sorted(cq), body=fr['form'] or '')
             fr['log'].append(dict(kind='form', tok=fr['tok'], got=got, want=want))
         elif kind == 'redirect':
@@ -1055,7 +1149,7 @@ def _interp(fr):
             return _gen_body(fr, act[1])
         else:
             raise ValueError(kind)
-    return 'done:' + fr['tok']
+    return _FELL_THROUGH
 
 
 def app_config(kind):
@@ -1165,6 +1259,10 @@ def do_call(apps, call, log, environ=None, path=None):
                                    else 'application/x-www-form-urlencoded')
         if call.get('cookie'):
             env['HTTP_COOKIE'] = call['cookie']
+        if call.get('signed'):
+            # a signed cookie with a MUTABLE payload, byte-identical in every request that carries it
+            sv = signed_cookie_value('sess', SESS_PAYLOAD, SECRET)
+            env['HTTP_COOKIE'] = (env['HTTP_COOKIE'] + '; ' if env.get('HTTP_COOKIE') else '') + 'sess="%s"' % sv
         if call.get('accept'):
             env['HTTP_ACCEPT'] = call['accept']
         if call.get('readonly'):
@@ -1179,8 +1277,14 @@ def do_call(apps, call, log, environ=None, path=None):
             # the application's domain_map turns this host into the '/r' prefix
             env['HTTP_HOST'] = 'r.example'
             env['PATH_INFO'] = path[2:]
+    w_req_cookies = None
+    if environ is None and call.get('signed'):
+        w_req_cookies = ([call['cookie'].split('=', 1)] if call.get('cookie') else []) + \
+            [['sess', signed_cookie_value('sess', SESS_PAYLOAD, SECRET)]]
     fr = dict(apps=apps, app=call['app'], tok=tok, path=path, qs=call.get('qs', ''),
-              method=call.get('method', 'GET'), form=form, cookie=call.get('cookie'), script=call['script'],
+              method=call.get('method', 'GET'), form=form,
+              cookie=(env.get('HTTP_COOKIE') if environ is None else call.get('cookie')), script=call['script'],
+              w_req_cookies=w_req_cookies if environ is None else call.get('w_req_cookies'), signed=call.get('signed'),
               readonly=call.get('readonly'), chunked_bad=call.get('chunked_bad'), too_big=call.get('too_big'),
               json_bad=call.get('json_bad'), json_nonobj=call.get('json_nonobj'), hook_input=call.get('hook_input'),
               log=log, w_hdrs={}, w_status=200, w_cookies={}, w_final='text', w_body='done:' + tok,
@@ -1665,7 +1769,14 @@ def gen_api_actions(rng, tok, has_form=False, readonly=False):
         return [['req_del'], ['see']]
     if r < 0.88:
         return [['ext'], ['see']]
-    return [['listen'] + (['off'] if rng.random() < 0.5 else []), ['see']]
+    if r < 0.94:
+        return [['listen'] + (['off'] if rng.random() < 0.5 else []), ['see']]
+    if r < 0.96:
+        return [['listen_around', [['see'], ['req_del'], ['req_set', 'HTTP_X_T', tok + 'xt2']]], ['see']]
+    if r < 0.98:
+        return [['hdr_append', name, tok + 'c1'], ['hdr_append', name, tok + 'c2'],
+                ['resp_copy'] + (['http'] if rng.random() < 0.5 else []), ['see']]
+    return [['copy_off'], ['req_set', 'QUERY_STRING', 'o=%so' % tok], ['see']]
 
 
 def gen_terminal(rng, tok):
@@ -1701,6 +1812,8 @@ def _tokens(calls, acc):
         for a in c['script']:
             if a[0] == 'call':
                 _tokens([a[1]], acc)
+            elif a[0] == 'listen_around':
+                _tokens([b[1] for b in a[1] if b[0] == 'call'], acc)
             elif a[0] == 'call_copy':
                 acc.append(c['tok'] + 'cc')
     return acc
@@ -1720,6 +1833,12 @@ def arrangement_failure(case, obs):
     for ti, log in enumerate(obs['threads']):
         for rec in log:
             if rec['kind'] in ('see', 'form'):
+                if rec.get('where') == 'listen' and rec['got'].get('foreign') and \
+                        {k: v for k, v in rec['got'].items() if k != 'foreign'} == {k: v for k, v in rec['want'].items() if k != 'foreign'}:
+                    import re
+                    ft = sorted({re.search(r't[ACE](?:n\d+|cc)*', str(h[1])).group(0) for h in rec['got']['foreign']})
+                    return ('thread %d call %s (listen): its listener heard environ changes of other calls; foreign tokens: %s; heard %s'
+                            % (ti, rec['tok'], ' '.join(ft), rec['got']['foreign']))
                 if rec['got'] != rec['want']:
                     diff = [k for k in rec['want'] if rec['got'].get(k) != rec['want'][k]]
                     extra = [k for k in rec['got'] if k not in rec['want']]
